@@ -347,19 +347,25 @@ func AdvanceToNextTimer(max time.Duration) bool {
 // Stacks returns the stacks of all goroutines that belong to a synctest bubble,
 // excluding the caller; used as the witness of a leak.
 func Stacks(skipSubstr ...string) []string {
-	buf := make([]byte, 1<<20)
+	buf := make([]byte, 4<<20)
 	n := runtime.Stack(buf, true)
 	var out []string
+	mine := ""
 	for i, g := range strings.Split(string(buf[:n]), "\n\n") {
-		if i == 0 {
-			continue // caller
-		}
 		head := g
 		if j := strings.IndexByte(g, '\n'); j >= 0 {
 			head = g[:j]
 		}
-		if !strings.Contains(head, "synctest bubble") {
+		k := strings.Index(head, "synctest bubble ")
+		if i == 0 {
+			// the caller: remember which bubble it lives in
+			if k >= 0 {
+				mine = strings.TrimRight(head[k:], "]:")
+			}
 			continue
+		}
+		if k < 0 || mine == "" || strings.TrimRight(head[k:], "]:") != mine {
+			continue // goroutines of other (earlier, leaked) bubbles are not ours
 		}
 		skip := false
 		for _, s := range skipSubstr {
